@@ -13,6 +13,8 @@ pub enum Text {
     Lit(String),
     /// text of byte length `capacity - len + delta` (clamped to 0..=8192) made of `unit` (ASCII)
     Fill { delta: i16, unit: char },
+    /// `unit` repeated `n` times (large texts without large replay files)
+    Repeat { n: usize, unit: char },
 }
 
 /// A byte index argument.
